@@ -120,7 +120,8 @@ def enumerate_methods():
         m["doc"] = doc_for(m["iface"], j)
         tag = "_".join(m["shape"]) if m["shape"] else "none"
         m["rust"] = "m%03d_%s" % (m["id"], tag)
-        m["member"] = ("Call%d" % m["id"]) if m["named"] else pascal(m["rust"])
+        # explicit names are used verbatim: lower-case first letter and underscores included
+        m["member"] = (("call%d" if m["id"] % 2 else "Call_%d") % m["id"]) if m["named"] else pascal(m["rust"])
     # coverage assertions (the enumeration is a covering design, checked here)
     dims = ["out", "async", "mut", "fall"]
     doms = {"out": OUTS, "async": [False, True], "mut": [False, True], "fall": FALLS}
@@ -157,10 +158,14 @@ def enumerate_props():
                 "doc": doc_for(j, 100 + k),
             }
             p["rust"] = "p%d%s" % (j, "abc"[k])
+            if (j, k) in ((0, 1), (3, 0)):
+                # a writable property whose own name starts with `set_` (setter: set_set_…)
+                assert p["writable"]
+                p["rust"] = "set_" + p["rust"]
             # every fifth property has an explicit D-Bus name that differs from the one derived
             # from its Rust name
             p["named"] = (3 * j + k) % 5 == 2
-            p["name"] = ("Renamed%d%s" % (j, "xyz"[k])) if p["named"] else pascal(p["rust"])
+            p["name"] = ("renamed_%d%s" % (j, "xyz"[k])) if p["named"] else pascal(p["rust"])
             ps.append(p)
     combos = {(p["ty"], p["writable"]) for p in ps}
     assert len(combos) == 6
